@@ -48,6 +48,56 @@ def assign_spellings(shapes, decisions):
         counters[key] += 1
 
 
+# what the file of a target holds before the invocation (shape["pre"][kind]; absent = "agreeing"): the pre-states of the
+# sync scenarios, the file that exists with ZERO statements in its variants (touched, blank lines only, comments only)
+CLI_PRE_STATES = ["agreeing", "missing", "zero:", "absent", "zero:# placeholder\n", "stale", "zero:\n\n",
+                  "zero:# Copyright (c) the authors\n# SPDX-License-Identifier: MIT\n", "zero:   \n"]
+
+
+def _cli_target(pre):
+    t = {"pre": pre, "n_sur": 0, "position": "after", "trailing_newline": True, "sur_seed": 1, "members": 0}
+    if pre.startswith("zero:"):
+        t.update(pre="empty", zero_text=pre[len("zero:"):])
+    elif pre == "absent":
+        t["n_sur"] = 2      # the file holds other statements, not the definition
+    return t
+
+
+def assign_pre_states(shapes, decisions):
+    """the accepted shapes: one pre-state per target, cycling through CLI_PRE_STATES (the two targets out of step)"""
+    n = 0
+    for s, d in zip(shapes, decisions):
+        if d["decision"] != "run":
+            continue
+        others = [k for k in KINDS if k != s["truth"]]
+        s["pre"] = {k: CLI_PRE_STATES[(n + 4 * j) % len(CLI_PRE_STATES)] for j, k in enumerate(others)}
+        n += 1
+
+
+def assign_fresh_dirs(shapes, decisions):
+    """the rejected shapes: every other one names its files (all but an existing truth file) in directories that do not
+    exist yet - a rejected invocation must create nothing, directories included"""
+    n = 0
+    for s, d in zip(shapes, decisions):
+        if d["decision"] != "reject" or not any(s["files"].values()):
+            continue
+        s["fresh_dirs"] = n % 2 == 0
+        n += 1
+
+
+def pre_state_grid():
+    """accepted invocations (one file and one name per kind) over truth kind x pre-state of the targets"""
+    out = []
+    for ti, t in enumerate(KINDS):
+        for n in range(len(CLI_PRE_STATES)):
+            s = shape_from_counts(t, (1, 1, 1), (1, 1, 1), True)
+            others = [k for k in KINDS if k != t]
+            s["pre"] = {k: CLI_PRE_STATES[(n + (3 + ti) * j) % len(CLI_PRE_STATES)] for j, k in enumerate(others)}
+            s["spelling"] = SYNC_SPELLINGS[(n + ti) % len(SYNC_SPELLINGS)]
+            out.append(s)
+    return out
+
+
 def cli_point(shape):
     """run the real CLI on that argument shape; returns (ok, what, facts)"""
     root = os.path.realpath(tempfile.mkdtemp(prefix="doctrans-verif-cli."))
@@ -57,15 +107,24 @@ def cli_point(shape):
         scn = L.gen_scenario(random.Random(7), runs=1, allow_known=False)
         # one fixed, plain project: whatever else the scenario generator draws is pinned here
         scn.update(body=None, wide=None, truth_edit=False, with_returns=False, files=None, argv_seed=None, receiver=None,
-                   style=None, tilde=False, symlink=False)
+                   style=None, tilde=False, symlink=False, prose_special=None, alternate=None)
         scn["truth"] = shape["truth"]
         scn["given"] = list(KINDS)
-        scn["targets"] = {k: {"pre": "agreeing", "n_sur": 0, "position": "after", "trailing_newline": True, "sur_seed": 1, "members": 0}
-                          for k in KINDS if k != shape["truth"]}
+        scn["targets"] = {k: _cli_target((shape.get("pre") or {}).get(k, "agreeing")) for k in KINDS if k != shape["truth"]}
         proj = L.build_project(scn, root)
         paths = proj["paths"]
         if not shape["exists"]:
             os.remove(paths[shape["truth"]])
+        fresh = bool(shape.get("fresh_dirs"))
+
+        def place(k, j):
+            """the j-th file named for kind k; with fresh_dirs every file but an existing truth file lies in a directory
+            (one or two levels) that does not exist"""
+            p = paths[k] if j == 0 else os.path.join(root, "%s_%d.py" % (k, j))
+            if fresh and not (k == shape["truth"] and j == 0 and shape["exists"]):
+                sub = ["pkg_%s" % k[:3]] + (["deep"] if j else [])
+                p = os.path.join(root, *(sub + [os.path.basename(p)]))
+            return p
         cwd = root if spelling == "relative" else work
         if spelling == "tilde-decoy":
             os.mkdir(os.path.join(work, "~"))
@@ -81,29 +140,35 @@ def cli_point(shape):
         argv = ["sync", "--truth", shape["truth"]]
         for k in KINDS:
             for j in range(shape["files"][k]):
-                argv += [optn[k][0], spell(paths[k] if j == 0 else os.path.join(root, "%s_%d.py" % (k, j)))]
+                argv += [optn[k][0], spell(place(k, j))]
             for j in range(shape["names"][k]):
                 argv += [optn[k][1], scn["names"][k]]
-        before, wbefore = L.snapshot(root), L.snapshot(work)
+        # names + bytes of the files AND the names of the directories
+        before, wbefore = L.snapshot(root, dirs=True), L.snapshot(work, dirs=True)
         r = L.run_cli(argv, cwd=cwd, extra_env={"HOME": root})
-        after, wafter = L.snapshot(root), L.snapshot(work)
+        after, wafter = L.snapshot(root, dirs=True), L.snapshot(work, dirs=True)
         rejected = r["rc"] == 2 and "usage:" in r["stderr"]
         if wafter != wbefore:
             return False, "%s invocation (files spelled %s) wrote outside the project, into the working directory: %s" % (
                 "rejected" if rejected else "accepted", spelling, sorted(set(wafter) - set(wbefore)) or sorted(wafter)), r
         if rejected:
             if before != after:
-                return False, "rejected invocation touched the file system", r
+                return False, "rejected invocation touched the file system%s: appeared %s, changed or vanished %s" % (
+                    " (its files named in directories that do not exist)" if fresh else "", sorted(set(after) - set(before)),
+                    sorted(f for f in before if before[f] != after.get(f, b"\0gone"))), r
             return True, "rejected", r
+        pre = "" if not shape.get("pre") else " (targets before: %s)" % ", ".join("%s %r" % kv for kv in sorted(shape["pre"].items()))
         if r["rc"] != 0:
             last = [l for l in r["stderr"].strip().split("\n") if l][-1:] or [""]
-            return False, "accepted invocation%s ended with an internal error: %s" % (
-                "" if spelling == "plain" else " (files spelled %s)" % spelling, last[0][:160]), r
+            return False, "accepted invocation%s%s ended with an internal error: %s" % (
+                "" if spelling == "plain" else " (files spelled %s)" % spelling, pre, last[0][:160]), r
         for f, b in after.items():
+            if b is None:
+                continue
             try:
                 ast.parse(b.decode())
             except SyntaxError:
-                return False, "file %s does not parse after an accepted invocation" % f, r
+                return False, "file %s does not parse after an accepted invocation%s" % (f, pre), r
         return True, "ran", r
     finally:
         shutil.rmtree(root, ignore_errors=True)
